@@ -200,6 +200,7 @@ def equity_programs(tick, unit):
         ('hold-across-midnight', dict(b, side='long', enter={'when': {'at': [3]}, 'legs': [[1, 0]]}, on_open={'sl': 'all', 'tp': 'all', 'sl_d': 500, 'tp_d': 500}, cancel_entry=True)),
         ('resting-entry-across-midnight', dict(b, side='long', enter={'when': {'at': [5]}, 'legs': [[1, -400]]}, cancel_entry=False)),
         ('idle', dict(b, side='long', enter={'when': {'at': [10 ** 9]}, 'legs': [[1, 0]]}, cancel_entry=True)),
+        ('short-hold-across-midnight', dict(b, side='short', enter={'when': {'at': [7]}, 'legs': [[2, 0]]}, on_open={'sl': 'all', 'tp': 'all', 'sl_d': 500, 'tp_d': 500}, cancel_entry=True)),
     ]
 
 
@@ -293,6 +294,7 @@ def run(ctx):
     P = equity_programs(emb[1], emb[2])
     ejobs = []
     for kind in ('futures', 'spot'):
+        P = [p for p in equity_programs(emb[1], emb[2]) if kind == 'futures' or p[1]['side'] == 'long']
         for k, r in itertools.product((1, 2) if not ctx.quick else (1,), (0, 1, 5)):
             minutes = 1440 * k + r
             for prog in P:
